@@ -56,7 +56,8 @@ WORLD = {
     "C05": dict(p_schedules=0.25, nv=(1, 6), ns=(1, 3), nb=(1, 2), nr=(3, 20), p_prices=0.8, p_rate=1.0, soc=[0.02, 0.1, 0.3, 0.6],
                 steps=[60, 60, 120, 300, 30, 45]),
     "C06": dict(nv=(1, 5), ns=(1, 3), nb=(1, 2), nr=(3, 20), network=["graph", "graph", "graph", "haversine", "haversine", "denver"],
-                steps=[1, 5, 7, 15, 30, 60, 60, 120, 300, 900], soc=[0.5, 0.9, 1.0, 1.0, 0.05], nsteps=(20, 60)),
+                steps=[1, 5, 7, 15, 30, 60, 60, 120, 300, 900], soc=[0.5, 0.9, 1.0, 1.0, 0.05], nsteps=(20, 60),
+                extent_m=[0, 0, 0, 0, 4000, 2500]),   # sometimes legs of hundreds of steps (a step that covers a tiny fraction of a link)
     "C07": dict(p_schedules=0.25, nv=(1, 6), ns=(1, 3), nb=(1, 3), nr=(2, 15), network=["haversine", "haversine", "graph"], p_fleets=0.15,
                 soc=[0.05, 0.3, 0.6, 1.0]),
     "C08": dict(nv=(1, 8), ns=(0, 3), nb=(0, 2), nr=(0, 25), p_fleets=0.1),
